@@ -13,7 +13,7 @@ import numpy as np
 from harness import c07grid
 from harness.common import Failure, lean_run
 
-PROP_MODULES = ["ArmiVerif.Props.C07"]
+PROP_MODULES = ["ArmiVerif.Props.C07", "ArmiVerif.Props.C07Grid"]
 PARTIAL = ("coordinates are compared up to floating-point rounding (1e-9 relative); sqrt(3) handled "
            "algebraically (integer coefficient basis); float sqrt in numRingsToHoldNumCells modelled by Nat.sqrt, "
            "tie stated for n < 2^50")
